@@ -37,12 +37,20 @@ Calls == {
   <<"map", ".replace(\"zz\", 5)">>, <<"map", ".remove(\"a\")">>, <<"map", ".clone()">>, <<"map", "[\"a\"]">>, <<"map", "[\"zz\"]">>,
   <<"fnv", ".is_closure()">>, <<"clo", ".is_closure()">>, <<"fnv", "()">>, <<"clo", "()">>, <<"fnv", "">>, <<"fnv", " is fv">>,
   <<"opt", " == nil">>, <<"opt", " == 4">>, <<"nilopt", " == nil">>, <<"opt", "">>, <<"nilopt", "">>, <<"obj", ".v">>, <<"obj", ".val()">>, <<"obj", ".me()">>,
-  <<"obj", " is bx">>, <<"obj", ".w">>, <<"obj", ".ws">>, <<"obj", ".mk(2)">> }
+  <<"obj", " is bx">>, <<"obj", ".w">>, <<"obj", ".ws">>, <<"obj", ".mk(2)">>,
+  <<"list", "[fl]">>, <<"list", "[op1]">>, <<"str", "[fl]">>, <<"list", "[z0 + z1]">>, <<"map", "[z0]">>, <<"lol", "[z0][z1]">> }
 CallCases == {[id |-> "call " \o c[1] \o c[2], setup |-> <<>>, e |-> Recv[c[1]] \o c[2]] : c \in Calls}
 Prefixed == {[id |-> "pre get op1", setup |-> <<>>, e |-> "get op1"], [id |-> "pre (op1) or 9", setup |-> <<>>, e |-> "(op1) or 9"],
              [id |-> "pre (op0) or 9", setup |-> <<>>, e |-> "(op0) or 9"], [id |-> "pre typeof il", setup |-> <<>>, e |-> "typeof il"],
              [id |-> "pre list mixed", setup |-> <<>>, e |-> "[1, \"a\", 2.5]"], [id |-> "pre list lit", setup |-> <<>>, e |-> "[1, 2]"],
-             [id |-> "pre self call", setup |-> <<>>, e |-> "fact(4)"], [id |-> "pre unwrap", setup |-> <<"w: int? = nil">>, e |-> "w ?= op1"]}
+             [id |-> "pre self call", setup |-> <<>>, e |-> "fact(4)"], [id |-> "pre unwrap", setup |-> <<"w: int? = nil">>, e |-> "w ?= op1"],
+             \* a local re-typed inside a nested block / a parameter re-typed, then used at its declared type
+             [id |-> "pre retype local in block", e |-> "rtf()",
+              setup |-> <<"rtf = fn() -> int {", "	tot = 5", "	if z1 == 1 {", "		tot = \"many\"", "	}", "	return tot - 1", "}">>],
+             [id |-> "pre retype param in loop", e |-> "rtp(3)",
+              setup |-> <<"rtp = fn(n: int) -> int {", "	while n > 100 {", "		n = \"s\"", "	}", "	from 0 to 2 {", "		n = \"t\"", "	}", "	return n * 2", "}">>],
+             [id |-> "pre counter reuses local", e |-> "cru(2)",
+              setup |-> <<"cru = fn(n: int) -> int {", "	idx = 7", "	from 0 to n, idx {", "		n = n + 0", "	}", "	return idx + n", "}">>]}
 
 Prologue == <<"z0 = 0", "z1 = 1", "z2 = 2", "fl = 1.5", "il: [int...] = [1, 2, 3]", "sl: [str...] = [\"x\", \"yy\"]", "ll: [[int...]...] = [[1], [2, 3]]",
               "mp = map[str, int]{\"a\": 1, \"b\": 2}", "fv = fn() -> int { return 7 }", "cnt = 0",
